@@ -113,7 +113,29 @@ func (h *Handle) List(_ context.Context, list client.ObjectList, opts ...client.
 	if h.proc == nil {
 		return s.List(list, opts...)
 	}
-	return listInto(s, h.proc.cache.objs, h.proc.cache.keys, list, opts...)
+	if err := listInto(s, h.proc.cache.objs, h.proc.cache.keys, list, opts...); err != nil {
+		return err
+	}
+	// read log: remember which version of every listed object this task has seen
+	if t := h.sim.cur; t != nil {
+		gvk, _ := s.gvkOf(list)
+		gk := schema.GroupKind{Group: gvk.Group, Kind: strings.TrimSuffix(gvk.Kind, "List")}
+		if gk.Kind != "Pod" {
+			lo := client.ListOptions{}
+			lo.ApplyOptions(opts)
+			for _, k := range h.proc.cache.keys {
+				if k.GK != gk || (lo.Namespace != "" && k.NS != lo.Namespace) {
+					continue
+				}
+				rr := readRec{Obj: h.proc.cache.objs[k], Found: true}
+				if _, ok := t.FirstRead[k]; !ok {
+					t.FirstRead[k] = rr
+				}
+				t.LastRead[k] = rr
+			}
+		}
+	}
+	return nil
 }
 
 type callInfo struct {
@@ -134,6 +156,7 @@ func (h *Handle) gate(ci callInfo) (string, writeCtx) {
 	// Pod patches that only carry the controller-revision-hash label are issued in Go map
 	// order by the label patcher: no yield, no fault, so that their order cannot matter.
 	if ci.Key.GK.Kind == "Pod" && ci.Verb == "patch" && strings.Contains(ci.Body, `"controller-revision-hash"`) && !strings.Contains(ci.Body, "rollout-id") {
+		ctx.Commut = true
 		return "", ctx
 	}
 	if sim.Cfg.Interleave && sim.cur != nil && sim.T.Chance(sim.Cfg.PreemptPermyr) {
